@@ -49,7 +49,7 @@ pid,res,out,V,tier=sys.argv[1:6]
 r=json.load(open(res))
 viol=[]
 if pid=="C10":
-    if r["walk_differs_from_incremental_reference"]>0 or r["order_or_duplicate_violations"]>0: viol=r["failures"]
+    if r["walk_differs_from_incremental_reference"]>0 or r["order_or_duplicate_violations"]>0 or r.get("follow_path_handover_changes_selection",0)>0: viol=r["failures"]
     unknown_naive = r["walk_differs_from_naive_reference"]-r["in_known_class_incr_ne_naive"]
     if unknown_naive>0: viol.append("walk differs from the naive reference outside the known class: %d cases"%unknown_naive)
     if r["in_known_class_incr_ne_naive"]>0:
@@ -60,7 +60,8 @@ entry={"name":"filtered walk / Open vs references over enumerated trees and patt
  "bound":"3 on-disk trees (<=10 entries, names a ab a-b b c.d, depth<=3) x include/exclude lists with <=2 (quick) / <=3 (thorough) patterns from a 26-pattern pool",
  "evaluations":r["evaluations"],"distinct_nontrivial":r["distinct_nontrivial"],"exhaustive":True,
  "walk_differs_from_incremental_reference":r["walk_differs_from_incremental_reference"],"walk_differs_from_naive_reference":r["walk_differs_from_naive_reference"],
- "in_known_class":r["in_known_class_incr_ne_naive"],"open_disagrees_with_walk":r["open_disagrees_with_walk"],"order_or_duplicate_violations":r["order_or_duplicate_violations"],"samples":r["samples"]}
+ "in_known_class":r["in_known_class_incr_ne_naive"],"open_disagrees_with_walk":r["open_disagrees_with_walk"],"order_or_duplicate_violations":r["order_or_duplicate_violations"],
+ "follow_path_handover_changes_selection":r.get("follow_path_handover_changes_selection",0),"samples":r["samples"]}
 extra={"bounded_standins":[entry]}
 if pid=="C10":
     extra.update({"evaluations":r["evaluations"],"distinct_nontrivial":r["distinct_nontrivial"],"exhaustive":True,
